@@ -9,8 +9,20 @@ table (missing frame numbers = empty steps), deciding uniqueness, gap bound,
 range bound (and optimality, shared with C02); (b) pandas-level comparison of
 returned rows with the input rows (index values, columns, values, frame
 coerced and ordered) and of the caller's table before/after (data and index).
+
+Route T (table plumbing).  tools/py2coq_coords.py re-translates the CURRENT text of
+coords_from_df / coords_from_df_iter (trackpy/linking/utils.py) and link_iter / link /
+link_df_iter (trackpy/linking/linking.py) into coq/Gen/coords.v on every run, before the
+cone of Properties/C01.v is rebuilt: Proofs/CoordsGen.v re-proves that the generated
+functions equal the hand-written models (Model/CoordsFromDf.v, Model/LinkTable.v,
+Model/Link.v) and the C01 theorems are restated for them (C01_generated_*).  A source that
+leaves the translatable subset, or whose translation no longer satisfies those proofs, is
+reported through chk.proof_broken; the correspondence runs below still take place (they only
+need the hand-written models), so a concrete failing input is still searched for.  When the
+build is intact the generated coords_from_df is also executed on the coords_from_df cases,
+next to the function it was translated from.
 """
-import numpy as np, pandas as pd, json
+import numpy as np, pandas as pd, json, os, sys, hashlib
 from fractions import Fraction
 import common, linkgen
 from common import cnat, clist
@@ -19,6 +31,89 @@ from props import c02
 IMPORTS = c02.IMPORTS
 FUNC = c02.FUNC
 CODES = c02.CODES
+
+TRANSLATOR = os.path.join(common.VERIF, 'tools', 'py2coq_coords.py')
+GEN = os.path.join(common.COQ, 'Gen', 'coords.v')
+STATE = {'gen_ok': False}
+
+
+# ----------------------------------------------------------------------------
+# route T: translator / build
+# ----------------------------------------------------------------------------
+def regenerate(chk):
+    """re-run the translator on the current source; returns (ok, text-or-log)"""
+    rc, out = common.sh([sys.executable, TRANSLATOR, '--repo', common.REPO, '--stdout'], timeout=60)
+    if rc != 0:
+        return False, out
+    with common.Lock(os.path.join(common.COQ, '.build.lock')):
+        old = open(GEN).read() if os.path.exists(GEN) else None
+        if old != out:
+            os.makedirs(os.path.dirname(GEN), exist_ok=True)
+            tmp = GEN + '.tmp%d' % os.getpid()
+            with open(tmp, 'w') as f:
+                f.write(out)
+            os.replace(tmp, GEN)
+            # what was proved about the previous text is void: a failing re-proof is then reported under its own file name
+            for v in ('Proofs/CoordsGen.vo', 'Model/CoordsGenCheck.vo', 'Properties/C01.vo'):
+                try:
+                    os.remove(os.path.join(common.COQ, v))
+                except OSError:
+                    pass
+            chk.tally('Gen/coords.v rewritten (source differs from last run)')
+        else:
+            chk.tally('Gen/coords.v unchanged')
+    return True, out
+
+
+def ensure_models(chk):
+    """the executable hand-written models / monitors are needed by the correspondence runs even when the
+    translation or a proof about the generated functions is broken"""
+    def fresh(v):
+        vo = os.path.join(common.COQ, v + 'o')
+        return os.path.exists(vo) and os.path.getmtime(vo) >= os.path.getmtime(os.path.join(common.COQ, v))
+    files = ('Model/LinkTable.v', 'Model/CoordsFromDf.v', 'Model/LinkCheck.v')
+    if all(fresh(v) for v in files):
+        return True
+    with common.Lock(os.path.join(common.COQ, '.build.lock')):
+        rc, out = common.sh('timeout 600 make -j8 %s 2>&1 | tail -25' % ' '.join(v + 'o' for v in files), timeout=630, cwd=common.COQ)
+    if not all(fresh(v) for v in files):
+        chk.proof_broken('Model/LinkCheck.v (hand-written models)', out)
+        return False
+    return True
+
+
+def build(chk):
+    """translator -> cone of Properties/C01.v; STATE['gen_ok'] tells whether the generated code can be executed"""
+    STATE['gen_ok'] = False
+    ok, text = regenerate(chk)
+    if not ok:
+        chk.proof_broken('translation tools/py2coq_coords.py (coords_from_df / coords_from_df_iter / link_iter / link / link_df_iter '
+                         'left the translatable subset)', text)
+        chk.build = dict(obligations=0, discharged=0, assumptions=[], files=[], theorems=[])
+    else:
+        for attempt in range(3):
+            b = chk.coq()
+            if open(GEN).read() == text:
+                break
+            # another run (different TRACKPY_REPO) rewrote the generated file in between: redo
+            chk.violations = [v for v in chk.violations if not v[0].startswith('proof:')]
+            regenerate(chk)
+        chk.notes.append('Gen/coords.v sha1 %s generated from %s' % (hashlib.sha1(text.encode()).hexdigest()[:12], common.REPO))
+        STATE['gen_ok'] = bool(b['ok'])
+        if b['ok']:
+            # the executable comparison file for the generated code (not in the cone of Properties/C01.v)
+            with common.Lock(os.path.join(common.COQ, '.build.lock')):
+                rc, out = common.sh('timeout 600 make Model/CoordsGenCheck.vo 2>&1 | tail -25', timeout=630, cwd=common.COQ)
+            vo = os.path.join(common.COQ, 'Model', 'CoordsGenCheck.vo')
+            if not (os.path.exists(vo) and os.path.getmtime(vo) >= os.path.getmtime(os.path.join(common.COQ, 'Gen', 'coords.vo'))):
+                STATE['gen_ok'] = False
+                chk.proof_broken('Model/CoordsGenCheck.v (executable comparison of the generated code)', out)
+        if not b['ok']:
+            # say which statement about the generated functions no longer checks
+            with common.Lock(os.path.join(common.COQ, '.build.lock')):
+                rc, out = common.sh('timeout 600 make Proofs/CoordsGen.vo 2>&1 | tail -25', timeout=630, cwd=common.COQ)
+            chk.notes.append('make Proofs/CoordsGen.vo (generated functions = model): ' + out[-2500:])
+    return ensure_models(chk)
 
 
 def make_table(rng, frames, frame_numbers, reverse_pos=False):
@@ -147,7 +242,7 @@ def _run(chk):
     from trackpy.linking.linking import Linker
     from trackpy.linking.utils import SubnetOversizeException
     common.quiet_trackpy()
-    chk.coq()
+    build(chk)
     n = 120 if chk.tier == 'quick' else 4000
     terms, metas, dterms, dmetas = [], [], [], []
     for k in range(n):
@@ -247,6 +342,15 @@ def _run(chk):
                 chk.tally('link_iter')
         except SubnetOversizeException:
             chk.tally('oversize (skipped)'); continue
+        except Exception as ex:
+            # trackpy itself raises on a valid movie: that movie is the failing input
+            c3 = dict(c); c3['frames'] = [np.asarray(f, dtype=float) / unit for f in frames]
+            chk.count((entry, 'exception', k), True)
+            chk.violation('%s: exception %s' % (entry, type(ex).__name__),
+                          '%s(%s, memory=%d) raises %s: %s' % (entry, c['strategy'], c['memory'], type(ex).__name__, str(ex)[:300]),
+                          dict(kind='movie', entry=entry, code=-1, case=dict(c02.jsonable(c3, None), unit_exp=c.get('unit_exp', 0), bystander=False),
+                               frame_numbers=numbers))
+            continue
         c2 = dict(c); c2['frames'] = [np.asarray(f, dtype=float) / unit for f in fr2]
         # link/link_df_iter pass coordinates in pos_columns order (z,y,x) = reversed generator order: distances unchanged
         if isinstance(c['sr'], tuple) and entry != 'link_iter':
@@ -264,7 +368,7 @@ def _run(chk):
         chk.sample(dict(entry=metas[0][0], case=c02.jsonable(metas[0][1], metas[0][2])))
     # coords_from_df itself against its model (Model/CoordsFromDf.v, proved equal to the declarative frame split)
     from trackpy.linking.utils import coords_from_df
-    cterms, cmeta = [], []
+    cterms, cmeta, gterms = [], [], []
     for k in range(60 if chk.tier == 'quick' else 1500):
         nrow = chk.rng.randint(1, 14)
         t0 = chk.rng.choice([0, 0, 1, -4, 7])
@@ -272,10 +376,18 @@ def _run(chk):
         if chk.rng.random() < 0.5:
             frs[0] = t0
         dfc = pd.DataFrame(dict(x=np.arange(nrow, dtype=float), frame=np.array(frs, dtype=np.int64)))
-        got = [[int(v) for v in arr[:, 0]] for t, arr in coords_from_df(dfc, ['x'], 'frame')]
+        try:
+            gott = [(int(t), [int(v) for v in arr[:, 0]]) for t, arr in coords_from_df(dfc, ['x'], 'frame')]
+        except Exception as ex:
+            chk.count(('cfd', tuple(frs)), True)
+            chk.violation('coords_from_df: exception %s' % type(ex).__name__, 'coords_from_df on frame column %s raises %s: %s' % (frs, type(ex).__name__, str(ex)[:300]),
+                          dict(kind='cfd', frames=frs, got=None))
+            continue
+        got = [g for _, g in gott]
         rows = clist(["{| r_id := %s; r_frame := %s; r_pos := [] |}" % (cnat(i), common.cZ(f)) for i, f in enumerate(frs)])
         cterms.append("(%s, %s)" % (rows, clist([clist([cnat(v) for v in g]) for g in got])))
         cmeta.append((frs, got))
+        gterms.append("(%s, %s)" % (rows, clist(["(%s, %s)" % (common.cZ(t), clist([cnat(v) for v in g])) for t, g in gott])))
     cres = common.coq_eval_lists(chk.work, "From TP Require Import Model.Assign Model.Link Model.LinkTable Model.CoordsFromDf.",
                                  "fun c => match c with (rows, out) => check_cfd rows out end", cterms, tag='cfd')
     for (frs, got), r in zip(cmeta, cres):
@@ -285,10 +397,39 @@ def _run(chk):
             chk.violation('coords_from_df: frames handed to the linker differ from the model',
                           'coords_from_df on frame column %s yields row groups %s, not one group per frame number from min to max in input order' % (frs, got),
                           dict(kind='cfd', frames=frs, got=got))
+    # link_iter numbers the arrays of a bare (not enumerated) iterable 0, 1, 2, ..
+    arrs = [np.array([[float(3 * k), 0.0]]) for k in range(4)]
+    try:
+        ts = [t for t, _ in tp.link_iter(arrs, 1)]
+    except Exception as ex:
+        ts = 'raises %s' % type(ex).__name__
+    chk.count(('link_iter numbering',), True)
+    chk.tally('link_iter frame numbers of a bare iterable')
+    if ts != [0, 1, 2, 3]:
+        chk.violation('link_iter: frame numbers of a bare iterable', 'link_iter over 4 arrays (not enumerated) reports frame numbers %s, not [0, 1, 2, 3]' % (ts,),
+                      dict(kind='link_iter_numbers', got=str(ts)))
+    # the same cases through the code GENERATED from the current coords_from_df (translator + vocabulary against the implementation)
+    if STATE['gen_ok']:
+        GCODES = {1: 'different row groups', 2: 'different frame numbers', 3: 'the generated code raises'}
+        gres = common.coq_eval_lists(chk.work, "From TP Require Import Model.Assign Model.Link Model.LinkTable Model.CoordsGenCheck.",
+                                     "fun c => match c with (rows, out) => check_cfd_gen rows out end", gterms, tag='cfdgen')
+        for (frs, got), r in zip(cmeta, gres):
+            chk.tally('generated coords_from_df vs implementation')
+            if r != 0:
+                chk.violation('generated coords_from_df: ' + GCODES.get(r, str(r)),
+                              'Gen/coords.v (translated from the current source) disagrees with the implementation it was translated from on frame '
+                              'column %s: %s (implementation yields %s)' % (frs, GCODES.get(r, str(r)), got), dict(kind='cfd', frames=frs, got=got))
+    else:
+        chk.tally('generated coords_from_df not executed (translation / proof broken)')
     chk.coverage['rule'] = ("lattice movies turned into tables with default/shuffled/duplicate/string/MultiIndex/'frame'-named indices, float frame column, "
                             "extra object columns, frame numbering with offsets and gaps; entry points link, link_df_iter, link_iter x every strategy x memory 0-3; "
                             "non-trivial = >= 6 features")
-    chk.assumptions += ["pandas semantics of the returned table are observed, not modelled", "as C02: KD-tree exact, lattice inputs, 1e-7 slack not modelled"]
+    chk.assumptions += ["pandas semantics of the returned table are observed, not modelled", "as C02: KD-tree exact, lattice inputs, 1e-7 slack not modelled",
+                        "route T: Gen/coords.v is produced from the current trackpy/linking/utils.py (coords_from_df, coords_from_df_iter) and linking.py (link_iter, link, "
+                        "link_df_iter) by tools/py2coq_coords.py (trusted, fail-closed; subset, conventions and the list of pandas / numpy / itertools primitives in its "
+                        "docstring and in Model/PyCoords.v: eager generators, DataFrame = labels + rows with identity and numeric cells, integer-valued frame column whose "
+                        "dtype is a flag, the Linker class as the interface LinkerI interpreted by Model/Link.v's step machine); pandas_sort and guess_pos_columns are "
+                        "primitives here (translated for C20)"]
 
 
 def replay(chk, path):
@@ -298,7 +439,7 @@ def replay(chk, path):
 
 def _replay(chk, path):
     common.quiet_trackpy()
-    chk.coq()
+    build(chk)
     r = json.load(open(path))['replay']
     if r.get('kind') == 'movie':
         cj = r['case']
@@ -318,7 +459,14 @@ def _replay(chk, path):
             labs = linkgen.run_link_iter([f * unit for f in frames], sr_u, memory=c['memory'], link_strategy=c['strategy'], enumerate_t=nums, bystander=True)
             fr2 = [f * unit for f in frames]
         else:
-            out = tp.link(df, linkgen.sr_float(sr_u), pos_columns=cols, memory=c['memory'], link_strategy=c['strategy'])
+            try:
+                out = tp.link(df, linkgen.sr_float(sr_u), pos_columns=cols, memory=c['memory'], link_strategy=c['strategy'])
+            except Exception as ex:
+                chk.count(('replay', cj), True)
+                print('replay (through tp.link): raises %s: %s' % (type(ex).__name__, ex))
+                chk.violation('link: exception %s' % type(ex).__name__, 'tp.link raises %s: %s' % (type(ex).__name__, str(ex)[:300]),
+                              dict(kind='movie', code=-1, case=cj, frame_numbers=nums))
+                return
             fr2, labs, _ = frames_from_output(out, cols)
         c['frames'] = [np.asarray(f, dtype=float) / unit for f in fr2]
         res = common.coq_eval_lists(chk.work, IMPORTS, FUNC, [c02.case_term(c, labs)])
